@@ -17,7 +17,8 @@ import subprocess
 import sys
 import tempfile
 
-OUT = "/tmp/seeded_out"
+OUT = os.environ.get("SEEDED_OUT", "/tmp/seeded_out")
+RENAME = dict(x.split("=") for x in os.environ.get("SEEDED_RENAME", "A=A,B=B").split(","))
 DST = "/verif/seeded"
 PROPS = {json.loads(l)["id"]: json.loads(l) for l in open("/verif/properties.jsonl")}
 
@@ -44,13 +45,13 @@ def one(pid, v):
         ok = res["demo_clean_rc"] == 0 and res["patch_applies"] and res["demo_patched_rc"] == 1 and res["baseline_ok"]
         res["confirmed"] = ok
         if ok:
-            d = os.path.join(DST, f"{pid}-{v}")
+            d = os.path.join(DST, f"{pid}-{RENAME.get(v, v)}")
             os.makedirs(d, exist_ok=True)
             shutil.copy(os.path.join(src, "patch.diff"), d)
             shutil.copy(os.path.join(src, "demo.py"), d)
             notes = open(os.path.join(src, "notes.txt")).read() if os.path.exists(os.path.join(src, "notes.txt")) else ""
             meta = {
-                "property": pid, "title": PROPS[pid]["title"], "variant": v, "source": "independent sub-agent given only the property text and a scratch worktree",
+                "property": pid, "title": PROPS[pid]["title"], "variant": RENAME.get(v, v), "source": "independent sub-agent given only the property text (and, in round 2, one-line summaries of the round-1 changes to avoid) and a scratch worktree",
                 "what_it_needs_to_manifest": notes.strip(),
                 "confirmed_by": "tools/confirm_seeded.py on a scratch copy of /repo (HEAD incl. the five fix: commits)",
                 "ran": {"demo_on_unchanged_copy_rc": res["demo_clean_rc"], "demo_on_patched_copy_rc": res["demo_patched_rc"],
